@@ -433,6 +433,7 @@ namespace sim
 	private:
 
 		void on_lookup(boost::system::error_code const& ec);
+		void wait_for_front();
 
 		struct result_t
 		{
@@ -465,6 +466,10 @@ namespace sim
 		using queue_t = aux::noexcept_movable<std::vector<result_t>>;
 
 		queue_t m_queue;
+
+		// a completion of m_timer that was already posted when this object is
+		// destroyed must not touch it
+		std::shared_ptr<bool> m_alive;
 	};
 
 	struct SIMULATOR_DECL udp
